@@ -181,6 +181,19 @@ CHECKS = {
         design_ref='§7 C13',
         note=NOTE_COMMON + 'Embedded positions are compared only when the nest yields a number; a raised exception during evaluation counts as an error value. Function-argument embeddings only for depth <= 1 (parser cost).',
         technique='TLA+ lazy evaluator with TLC-checked laws as invariants over all enumerated nests, nests replayed, trace validation'),
+    'C12': dict(
+        category='model_checking',
+        text=('TLC checks the criteria oracle (XlCriteria.Accepts over numeric / text / blank cells, 6 operators, wildcard patterns with whole-cell '
+              'case-insensitive matching) for Complement, OrderingOnlyNumbers, NumberCriterionRejectsText, TextCriterionRejectsNumbers, '
+              'PlainIsCaseInsensitiveEquality, WildcardLaws and SelectionIsConjunction, and enumerates every criteria column of 3 cells x 36 criteria with '
+              'the selected positions (alone and with a fixed second pair) and, per spelling of the criterion in the formula, the open findings whose '
+              'Guard holds. Binding: SUMIF (2/3 arguments), SUMIFS, COUNTIFS, AVERAGEIFS with one and two pairs in both orders and the mis-sized variants '
+              '(must be an error outcome) are evaluated by the real pipeline with column contents as overrides and compared with select-then-fold over '
+              'the spec\'s selection; random longer columns with 1..3 pairs are observed through SUMIFS over a power-of-two target column and judged by '
+              'TLC (Trace_C12).'),
+        design_ref='§7 C12',
+        note=NOTE_COMMON + 'Open findings C12-F1 (operator prefixes only parsed in "<op><number>" literals), C12-F2 (ordering criterion vs text cell raises), C12-F3 (blank counted as 0) with spec-computed guards; inside a guard the deviant outcome is not modelled (precision any). Numeric-looking and calendar-word texts are kept out (dateutil clock hazard).',
+        technique='TLA+ criteria oracle with TLC-checked laws, TLC-enumerated columns x criteria x spellings replayed, trace validation'),
 }
 
 NOT_APPLICABLE = {}
